@@ -1,5 +1,5 @@
 SPECIFICATION Spec
-CONSTANTS Names = {"n1", "a.b", "x-y", "_u", "vpa", "vmk", "7z", "4.2"} Values = {"v1", "v2", "v3", "v4", "v5", "v6", "v7", "v8"} WalkLen = 20
+CONSTANTS Names = {"n1", "a.b", "x-y", "_u", "vpa", "vmk", "7z", "4.2"} Values = {"v1", "v2", "v3", "v4", "v5", "v6", "v7", "v8", "v9"} WalkLen = 20
 INVARIANT NonFirstNeverReplaced
 INVARIANT Emit
 CHECK_DEADLOCK FALSE
